@@ -320,5 +320,17 @@ def run(ctx, rep):
                         "%s creates %s with (%s, %s) instead of the file's own endianness and class (an AnyEndian handle would then decode differently from the matching fixed spec)"
                         % (fnx["qual"], c.callee_norm, prov.show(a[0])[:80], prov.show(a[1])[:80]))
     rep.floor("plumbing", "view/decoder construction sites in the two parsers", n_sites, 30 if "std" in F["config"]["features"] else 15)
+    # "AnyEndian gives what the matching fixed spec gives" rests on every spec using the trait's provided read methods (no override) and on
+    # is_little agreeing with the variant: C04.  The stream parser hands parse_ident the bytes it read: the I/O protocol (C07 / C17).
+    from ._common import premise
+    premise(ctx, rep, "C04", "all specs share the provided read methods; is_little matches the variant", where="src/endian.rs")
+    if "std" in F["config"]["features"]:
+        from ..streamrules import rule_io_protocol
+        from ..runner import Report
+        subio = Report("C10")
+        rule_io_protocol(F, subio)
+        rep.require(not subio.violations, "premise", "the stream parser's reads deliver the bytes of the file (I/O protocol)", "src/elf_stream.rs",
+                    "seek + read_exact into a buffer of the requested length, cached only after success",
+                    "the bytes handed to parse_ident by the stream parser need not be the file's: %s" % "; ".join("%s: %s" % (v.key, v.msg[:140]) for v in subio.violations[:3]))
     rep.trusted_base += ["slice equality / indexing semantics of core", "C04 (no impl overrides a read method; is_little agrees with the variant) for "
                         "'AnyEndian then behaves as the matching fixed spec'"]
